@@ -5,6 +5,7 @@ import ast
 import re
 
 from vk import astx, facts, elect
+from vk.report import shape_rule
 from vk.algebra import Normalizer, bool_key, literals, spec_rat
 from vk.loader import AnalysisError
 
@@ -162,6 +163,7 @@ def _stv_binding(prog, call):
     return {k: astx.u(v) for k, v in astx.bind_args(call, stv_init.params, skip_self=True).items()}
 
 
+@shape_rule
 def r3_alaska(ctx):
     prog = ctx.prog
     f = prog.find_func("Alaska._run_step")
